@@ -52,7 +52,7 @@ ASSUMPTIONS = [
     "binary members (data.pickle) of zip and directory are compared by name only; text members after "
     "replacing the embedded id() numbers by their order of first occurrence",
     "a write that raises is outside the statement (counted in write_errors, not a violation)",
-    "serializer format 6 only, backup default, no IOSpec values (pandas / module files: C18)",
+    "serializer format 6 only, backup default; IOSpec-backed values: one excel-backed DataFrame only (rest: C18)",
     "CPython 3.12, PYTHONHASHSEED=0",
 ]
 
@@ -103,6 +103,8 @@ REF_VALUES = {
     "list": "[1]", "dict": '{"a": 1}', "tuple": "(1, 2)", "set": "{1, 2}", "bytes": 'b"by"',
     "complex": "(1+2j)", "nested": '{"k": [1, (2, float("nan"))]}',
     "module": "math", "module2": "json.decoder",
+    # IOSpec-backed values (DESIGN section 5 row 14): created by new_pandas / replaced by update_pandas
+    "pandas": None, "pandas_upd": None,
 }
 REF_TARGETS = ["other", "self", "cells", "child", "childcells", "othercells", "model", "parent",
                "item", "itemcells"]
@@ -318,7 +320,15 @@ def gen(case):
             if val == "module2":
                 head.append("import json.decoder")
         L.append('%s.new_cells("get", formula="lambda: %s")' % (host, name))
-        if S == "m":
+        if val in ("pandas", "pandas_upd"):
+            if mode != "auto":
+                raise NotApplicable("mode")          # new_pandas takes no mode
+            head.append("import pandas as pd")
+            L.append('%s.new_pandas("%s", "data/%s.xlsx", pd.DataFrame({"a": [1, 2]}), file_type="excel")'
+                     % (S, name, name))
+            if val == "pandas_upd":
+                L.append('m.update_pandas(%s.%s, pd.DataFrame({"a": [3, 4, 5]}))' % (S, name))
+        elif S == "m":
             L.append("m.%s = %s" % (name, expr))
         else:
             L.append('S.set_ref("%s", %s, "%s")' % (name, expr, mode))
@@ -404,46 +414,51 @@ def gen(case):
             if addvia == "new":
                 return ['D = %s.new_space("A", bases=[%s])' % (parent, ", ".join(bases))]
             return ['D = %s.new_space("A")' % parent, "D.add_bases(%s)" % ", ".join(bases)]
-        definers = ["B0"]
+
+        def define(b, override=False):
+            if member == "cells":
+                if override:
+                    return ['%s.f.formula = "lambda x: (\\"%s\\", x)"' % (b, b)]
+                return ['%s.new_cells("f", formula="lambda x: (\\"%s\\", x)")' % (b, b)]
+            if member == "ref":
+                return ['%s.v = "%s"' % (b, b)] + ([] if override else ['%s.new_cells("get", formula="lambda: v")' % b])
+            if member == "none":
+                return []
+            raise NotApplicable("member")
+        # bases and their members first, the deriving space afterwards (derivation at creation time)
         if shape == "sib":
             L.append('B0 = %s.new_space("B0")' % W)
+            L += define("B0")
             L += sub(W, ["B0"])
         elif shape == "cross":
             L += ['N = %s.new_space("N")' % W, 'B0 = N.new_space("B0")', 'K = %s.new_space("K")' % W]
+            L += define("B0")
             L += sub("K", ["B0"])
         elif shape in ("two", "two_r"):
             L += ['B0 = %s.new_space("B0")' % W, 'B1 = %s.new_space("B1")' % W]
+            L += define("B0") + define("B1")
             L += sub(W, ["B0", "B1"] if shape == "two" else ["B1", "B0"])
-            definers = ["B0", "B1"]
         elif shape == "chain":
-            L += ['B1 = %s.new_space("B1")' % W, 'B0 = %s.new_space("B0", bases=[B1])' % W]
+            L += ['B1 = %s.new_space("B1")' % W]
+            L += define("B1")
+            L += ['B0 = %s.new_space("B0", bases=[B1])' % W]
             L += sub(W, ["B0"])
-            definers = ["B1"]
         elif shape == "child":
             L += ['B0 = %s.new_space("B0")' % W, 'X = %s.new_space("X")' % W]
+            L += define("B0")
             L += sub("X", ["B0"])
         elif shape == "diamond":
-            L += ['R = %s.new_space("R")' % W, 'B0 = %s.new_space("B0", bases=[R])' % W,
-                  'B1 = %s.new_space("B1", bases=[R])' % W]
+            L += ['R = %s.new_space("R")' % W]
+            L += define("R")
+            L += ['B0 = %s.new_space("B0", bases=[R])' % W, 'B1 = %s.new_space("B1", bases=[R])' % W]
+            L += define("B1", override=True)
             L += sub(W, ["B0", "B1"])
-            definers = ["R", "B1"]
         else:
             raise NotApplicable("shape")
-        for b in definers:
-            if member == "cells":
-                L.append('%s.new_cells("f", formula="lambda x: (\\"%s\\", x)")' % (b, b))
-            elif member == "ref":
-                L.append('%s.v = "%s"' % (b, b))
-                L.append('%s.new_cells("get", formula="lambda: v")' % b)
-            elif member != "none":
-                raise NotApplicable("member")
         if ov:
-            if member == "cells":
-                L.append('D.new_cells("f", formula="lambda x: (\\"A\\", x)")')
-            elif member == "ref":
-                L.append('D.v = "A"')
-            else:
+            if member == "none":
                 raise NotApplicable("override")
+            L += define("D", override=True)
         if dinput:
             late.append("D.f[1] = 5")
 
@@ -503,6 +518,8 @@ def rv(v, depth=0):
         return ["dict"] + sorted(([rv(k, depth + 1), rv(x, depth + 1)] for k, x in v.items()), key=repr)
     if type(v).__name__ == "module":
         return "<module %s>" % v.__name__
+    if type(v).__name__ in ("DataFrame", "Series") and hasattr(v, "to_csv"):
+        return ["pandas", type(v).__name__, safe(lambda: v.to_csv())]
     return "<%s>" % type(v).__name__
 
 
@@ -527,9 +544,11 @@ def _pstr(steps):
 
 def _inputs(d, c, prefix):
     def go():
+        one = len(c.parameters) == 1          # Mapping view of a one-parameter cells yields bare keys
         for key, val in list(c.items()):
-            if c.is_input(*key):
-                d["input|%s|%s" % (prefix, js(rv(key)))] = rv(val)
+            args = (key,) if one else tuple(key)
+            if c.is_input(*args):
+                d["input|%s|%s" % (prefix, js(rv(args)))] = rv(val)
     r = safe(go)
     if r is not None:
         d["input|%s|BROKEN" % prefix] = r
@@ -537,8 +556,10 @@ def _inputs(d, c, prefix):
 
 def _held(d, c, prefix):
     def go():
+        one = len(c.parameters) == 1
         for key, val in list(c.items()):
-            d["held|%s|%s" % (prefix, js(rv(key)))] = [rv(val), bool(c.is_input(*key))]
+            args = (key,) if one else tuple(key)
+            d["held|%s|%s" % (prefix, js(rv(args)))] = [rv(val), bool(c.is_input(*args))]
     r = safe(go)
     if r is not None:
         d["held|%s|BROKEN" % prefix] = r
@@ -558,13 +579,17 @@ def _walk_dyn(d, s, snapshot):
         _walk_dyn(d, it, snapshot)
 
 
-def _ref(d, holder, hpath, name):
+def _ref(d, holder, hpath, name, snapshot=False):
     k = "ref|%s|%s|" % (hpath, name)
     def go():
         proxy = holder._get_object(name, as_proxy=True)
         d[k + "value"] = rv(proxy.value)
-        d[k + "mode"] = proxy.refmode
-        d[k + "derived"] = bool(proxy.is_derived())
+        mode = proxy.refmode
+        if isinstance(mode, int) and not isinstance(mode, bool) and abs(mode) > 10 ** 6:
+            mode = "<int id>"                  # an id() number stored as mode: rendered session-independently
+        d[k + "mode"] = rv(mode)
+        if snapshot:
+            d[k + "derived"] = bool(proxy.is_derived())
     r = safe(go)
     if r is not None:
         d[k + "value"] = r
@@ -574,7 +599,8 @@ def _walk_static(d, s, path, snapshot):
     sk = "space|%s|" % path
     d[sk + "exists"] = type(s).__name__
     d[sk + "bases"] = safe(lambda: [_pstr(rv(tuple(b._idtuple[1:]))[1:]) for b in s._direct_bases])
-    d[sk + "mro"] = safe(lambda: [_pstr(rv(tuple(b._idtuple[1:]))[1:]) for b in s.bases])
+    if snapshot:
+        d[sk + "mro"] = safe(lambda: [_pstr(rv(tuple(b._idtuple[1:]))[1:]) for b in s.bases])
     d[sk + "formula"] = safe(lambda: s.formula.source if s.formula is not None else None)
     d[sk + "params"] = safe(lambda: list(s.parameters) if s.parameters is not None else None)
     d[sk + "doc"] = safe(lambda: s.doc)
@@ -591,7 +617,8 @@ def _walk_static(d, s, path, snapshot):
         d[ck + "cached"] = safe(lambda: bool(c.is_cached))
         d[ck + "allow_none"] = safe(lambda: c.allow_none)
         d[ck + "doc"] = safe(lambda: c.doc)
-        d[ck + "derived"] = safe(lambda: bool(c._is_derived()))
+        if snapshot:
+            d[ck + "derived"] = safe(lambda: bool(c._is_derived()))
         _inputs(d, c, path + "." + n)
         if snapshot:
             _held(d, c, path + "." + n)
@@ -600,8 +627,11 @@ def _walk_static(d, s, path, snapshot):
         d[sk + "refs"] = refs
         refs = []
     for n in refs:
-        _ref(d, s, path, n)
-    r = safe(lambda: [_walk_dyn(d, it, snapshot) for it in list(s.itemspaces.values())] and None)
+        _ref(d, s, path, n, snapshot)
+    def dyn():
+        for it in list(s.itemspaces.values()):
+            _walk_dyn(d, it, snapshot)
+    r = safe(dyn)
     if r is not None:
         d[sk + "items"] = r
     subs = safe(lambda: sorted(s.named_spaces.items()))
@@ -613,8 +643,9 @@ def _walk_static(d, s, path, snapshot):
 
 
 def describe(m, snapshot=False):
-    """Flat {key: rendered leaf}.  snapshot=True adds name, allow_none of spaces, held values and the
-    set of existing dynamic spaces (used by clause ``untouched`` only)."""
+    """Flat {key: rendered leaf}: exactly what the statement lists.  snapshot=True adds everything else
+    that is observable (name, allow_none of model / spaces, MRO, derived flags, held values, the set of
+    existing dynamic spaces); the snapshot is used by clause ``untouched`` only."""
     d = {}
     d["model|doc"] = safe(lambda: m.doc)
     if snapshot:
@@ -625,7 +656,7 @@ def describe(m, snapshot=False):
         d["model|refs"] = refs
         refs = []
     for n in refs:
-        _ref(d, m, "", n)
+        _ref(d, m, "", n, snapshot)
     spaces = safe(lambda: sorted(m.spaces.items()))
     if isinstance(spaces, str):
         d["model|spaces"] = spaces
@@ -694,7 +725,8 @@ def _dyn_closure(space):
     return out
 
 
-ARGS = {0: [()], 1: [(0,), (1,)], 2: [(0,), (1,), (1, 2)]}
+# 0 makes the generated formulas return None, 1 hits the input keys, 2 / (2, 3) always calculate
+ARGS = {0: [()], 1: [(0,), (1,), (2,)], 2: [(0,), (1,), (1, 2), (2, 3)]}
 
 
 def probe_plan(m, extra_items):
@@ -772,7 +804,7 @@ def _norm_ids(texts):
 
 
 def _is_text(name):
-    return not name.endswith(".pickle")
+    return not name.endswith((".pickle", ".pkl", ".xlsx"))
 
 
 def list_dir(path):
@@ -1063,17 +1095,20 @@ def minimise(viol, scratch):
 # ----------------------------------------------------------------------------------------
 # enumeration
 
+CELL_DOCS = [d for d in DOC_IDS if d != "div"]     # the divider-line doc is enumerated at space / model level
+
+
 def _cells_items(tier):
     out = []
     if tier == "quick":
         for via in ("dir", "zip"):
             for form in FORMS:
-                for doc in DOC_IDS:
+                for doc in CELL_DOCS:
                     for p in PARAMS:
                         out.append({"kind": "cells", "fix": {"ctx": "top", "via": via, "form": form, "doc": doc, "params": p},
                                     "free": {"cached": [True, False], "allow_none": ALLOW, "inputs": INPUTS,
                                              "docvia": ["src"]}})
-        # the other contexts with the reduced doc / input menus (full product of the rest)
+        # the other contexts with reduced doc / input menus (full product of the rest)
         for ctx in ("nested", "base", "base2", "param", "param2"):
             for via in ("dir", "zip"):
                 for form in FORMS:
@@ -1084,14 +1119,18 @@ def _cells_items(tier):
         for ctx in ("top", "nested", "base", "base2", "param", "param2"):
             for via in ("dir", "zip"):
                 for form in FORMS:
-                    for doc in DOC_IDS:
-                        for p in PARAMS:
-                            for warm in (False, True):
-                                out.append({"kind": "cells",
-                                            "fix": {"ctx": ctx, "via": via, "form": form, "doc": doc, "params": p,
-                                                    "chain": 2, "warm": warm},
-                                            "free": {"cached": [True, False], "allow_none": ALLOW, "inputs": INPUTS,
-                                                     "docvia": ["src", "setter"]}})
+                    for p in PARAMS:
+                        for doc in CELL_DOCS:
+                            out.append({"kind": "cells",
+                                        "fix": {"ctx": ctx, "via": via, "form": form, "doc": doc, "params": p,
+                                                "chain": 2, "warm": False},
+                                        "free": {"cached": [True, False], "allow_none": ALLOW, "inputs": INPUTS,
+                                                 "docvia": ["src", "setter"]}})
+                        # warm (calculated values held and ItemSpaces alive while writing): reduced doc menu
+                        out.append({"kind": "cells",
+                                    "fix": {"ctx": ctx, "via": via, "form": form, "params": p, "chain": 2, "warm": True},
+                                    "free": {"cached": [True, False], "allow_none": ALLOW, "inputs": INPUTS,
+                                             "doc": ["none", "plain"], "docvia": ["src"]}})
     return out
 
 
@@ -1186,6 +1225,9 @@ _SCRIPT_TAIL = r'''
 import os, shutil, tempfile
 def _p(o):
     return ".".join(str(x) for x in o._idtuple[1:]) if hasattr(o, "_idtuple") else o
+def _ins(c):
+    one = len(c.parameters) == 1
+    return {k: v for k, v in c.items() if c.is_input(*((k,) if one else k))}
 def _show(m):
     out = {"doc": m.doc, "refs": {k: _p(v) for k, v in m.refs.items() if k[0] != "_"}}
     def walk(s, path):
@@ -1194,10 +1236,10 @@ def _show(m):
                      "refs": {k: (_p(s.refs[k]), s._get_object(k, as_proxy=True).refmode) for k in s._own_refs}}
         for n, c in s.cells.items():
             out[path + "." + n] = {"src": c.formula.source, "cached": c.is_cached, "allow_none": c.allow_none,
-                                   "doc": c.doc, "inputs": {k: v for k, v in c.items() if c.is_input(*k)}}
+                                   "doc": c.doc, "inputs": _ins(c)}
         def dyn(it):
             for n, c in it.cells.items():
-                ins = {k: v for k, v in c.items() if c.is_input(*k)}
+                ins = _ins(c)
                 if ins:
                     out[repr(c)] = ins
             for ch in it.named_spaces.values():
@@ -1272,5 +1314,5 @@ def vacuity(agg, tier):
         return "fewer than 300 distinct model descriptions round-tripped"
     if c.get("probe_evaluations", 0) < c.get("roundtrips", 0):
         return "probe queries hardly evaluated anything"
-    if c.get("unbuildable", 0) * 4 > c.get("cases", 1):
-        return "more than a quarter of the generated programs could not be built"
+    if c.get("unbuildable", 0) * 10 > c.get("cases", 1) * 6:
+        return "more than 60% of the generated programs were rejected by the API while building"
